@@ -80,6 +80,8 @@ package protocol
 //@ func normalizePath(dst, src) r
 //@   props C07, C03
 //@   witness dst = "", src = "/a/%2e%2e/b"
+//@   witness dst = "", src = "/.."
+//@   witness dst = "", src = "/%2e%2e?x"
 //@   witness dst = "", src = "/static/%2e%2e/%2E%2E/etc/passwd"
 //@   witness dst = "", src = "/a/b/%2e%2e"
 //@   witness dst = "", src = "/..x/../y"
